@@ -93,4 +93,67 @@ def dddListsInitP (l : PyOneMany PyVal) : Py (Params × List Val) :=
     (has_tzid := hasTzidL) (tzid_of := tzidOfL) (no_params := ([] : Params)) (value_of := valueOfL)
     (tzid_truthy := tzidTruthyL) (params_set := paramsSetL)
 
+/-! ### `vDDDTypes.__init__` -/
+
+/-- a value of the model as the object `vDDDTypes` wraps (the time zone of a datetime is not among the fields: it comes
+    back through `tzid_from_dt`, a function parameter) -/
+def atomObjE : PyAtom → PyDDD
+  | .date d => .date ⟨d.y, d.m, d.d⟩
+  | .dt t => .dt ⟨t.wall.d.y, t.wall.d.m, t.wall.d.d, t.wall.h, t.wall.mi, t.wall.s⟩
+  | .dur s => .dur (TD.ofSeconds s)
+  | .time t => .time ⟨t.h, t.mi, t.s⟩
+
+/-- the translated `vDDDTypes.__init__`: the parameters it derives -/
+def dddInitParamsP (tz : PyDDD → Option Str) (d : PyDDD) : Params :=
+  (vDDDTypes_init (dt := d) (params := ([] : Params)) (dt_ := d) (params_none := ([] : Params))
+    (params_date := [(kVALUE, .one "DATE".toList)]) (params_time := [(kVALUE, .one "TIME".toList)])
+    (params_period := [(kVALUE, .one "PERIOD".toList)]) (tzid_from_dt := tz)
+    (params_with_tzid := fun ps z => ps ++ [(kTZID, .one z)])).1
+
+/-! ### `vPeriod.__init__` -/
+
+/-- what `vPeriod.__init__` handles: a member of the pair, the end it computes from a duration (`start + duration`, not
+    evaluated: only its order against the start matters), or a duration it computes (`end - start`, not observed) -/
+inductive PerObj where
+  | atom (a : PyAtom)
+  | endOf (a : PyAtom) (s : Int)
+  | span
+
+def perIsDatetime : PerObj → Bool
+  | .atom (.dt _) => true
+  | _ => false
+def perIsDate : PerObj → Bool          -- a datetime is a date
+  | .atom (.date _) => true
+  | .atom (.dt _) => true
+  | _ => false
+def perIsTimedelta : PerObj → Bool
+  | .atom (.dur _) => true
+  | _ => false
+def perAdd : PerObj → PerObj → Py PerObj
+  | .atom (.date d), .atom (.dur s) => .ok (.endOf (.date d) s)
+  | .atom (.dt t), .atom (.dur s) => .ok (.endOf (.dt t) s)
+  | _, _ => .error .typeError
+/-- `end - start`: two dates, or two datetimes that are both naive or both aware -/
+def perSub : PerObj → PerObj → Py PerObj
+  | .atom (.date _), .atom (.date _) => .ok .span
+  | .atom (.dt y), .atom (.dt x) => if x.tzid.isSome == y.tzid.isSome then .ok .span else .error .typeError
+  | _, _ => .error .typeError
+/-- `start > end` -/
+def perGt : PerObj → PerObj → Py Bool
+  | .atom _, .endOf _ s => .ok (decide (s < 0))
+  | .atom (.date x), .atom (.date y) => .ok (keyLt (PDate.key y) (PDate.key x))
+  | .atom (.dt x), .atom (.dt y) => match dtGt x y with | some r => .ok r | none => .error .typeError
+  | _, _ => .error .typeError
+def perTzid : PerObj → Option Str
+  | .atom (.dt t) => t.tzid
+  | _ => none
+
+/-- the translated `vPeriod.__init__((a, b))`: the parameters it derives (or the exception) -/
+def periodInitParamsP (a b : PyAtom) : Py Params :=
+  (vPeriod_init (per := (PerObj.atom a, PerObj.atom b)) (params := ([] : Params)) (start_ := PerObj.span) (end_ := PerObj.span)
+    (by_duration_ := 0) (duration_ := PerObj.span) (start_is_datetime := perIsDatetime) (start_is_date := perIsDate)
+    (other_is_datetime := perIsDatetime) (other_is_date := perIsDate) (other_is_timedelta := perIsTimedelta)
+    (add := perAdd) (sub := perSub) (start_gt_end := perGt) (params_period := [(kVALUE, .one "PERIOD".toList)])
+    (tzid_from_dt := perTzid) (params_set := fun ps k z => ps ++ [(k, .one z)])).map (fun r => r.1)
+
 end ICal.Bodies
